@@ -20,7 +20,8 @@ with open(os.path.join(os.path.dirname(os.path.dirname(os.path.abspath(__file__)
 
 QUOTED = re.compile(r'"([^"]*)"')
 VN = 0x6162636465666768   # vnode ids with no zero byte: a text slice that starts one byte early would show it
-NPAT = 6
+NPAT = 7
+INVISIBLE = ['\t', 'a', '\u00a0', '\u200d', 'b', '\u3000', '\u00ad', '\uf8ff', '\u202f']
 SPECIAL = '{}%s\\{0}$(['
 
 
@@ -36,6 +37,13 @@ def text(L, pattern):
         s = 'z' * r + '€' * (L // 3)
     elif pattern == 3:   # only separators: every chunk ends (and begins) with '/'
         s = '/' * L
+    elif pattern == 6:   # valid text that is not 'printable': tab, no-break space, zero-width joiner, ideographic space, soft hyphen, private use
+        s = ''
+        i = 0
+        while len((s + INVISIBLE[i % len(INVISIBLE)]).encode()) <= L:
+            s += INVISIBLE[i % len(INVISIBLE)]
+            i += 1
+        s += 'x' * (L - len(s.encode()))
     elif pattern == 5:   # characters that mean something to str.format, %-formatting and regexes
         s = ''.join(SPECIAL[i % len(SPECIAL)] for i in range(L))
     else:                # blanks and dots: every chunk ends with a character a careless strip() would eat
@@ -220,7 +228,7 @@ class C08(Check):
     pid = 'C08'
     level = 'model_checking'
     rule = ('texts of every byte length 0..184 x 5 content patterns (ASCII; 2-byte and 3-byte UTF-8 characters placed to '
-            'straddle record boundaries; all separators; blanks and dots; characters that mean something to str.format, %-formatting and regexes) chunked kernel-style: (a) stand-alone VFS_LOOKUP, TRACE_STRING_GLOBAL (lengths '
+            'straddle record boundaries; all separators; blanks and dots; characters that mean something to str.format, %-formatting and regexes; tabs, no-break / ideographic spaces, zero-width joiners, soft hyphens, private-use characters) chunked kernel-style: (a) stand-alone VFS_LOOKUP, TRACE_STRING_GLOBAL (lengths '
             '0..184) and THREADNAME / THREADNAME_PREV (0..63) record sequences, bare and with an unrelated same-thread record (undecoded, unknown, decodable NONE, a kernel trace-data record with non-text bytes, a VFS_LOOKUP_DONE record, the own terminate record of the thread, the lost-events marker, the never-ended START of another call, a complete START/END pair) in every gap between the chunk records, and preceded by the START record of an earlier text whose END was lost - exactly one trace with exactly the text (and '
             'vnode id / string id), tables hold exactly the announced text; (b) every path-taking BSD decoder (66 names, frozen '
             'slot table) x one lookup of every length x patterns; x k in {0,1,2,3,6} lookups of boundary lengths '
